@@ -363,6 +363,7 @@ class Ctx:
         self.dec_stack = []
         self.merge_cache = {}
         self.models_cache = []
+        self.msolvers = []
         self.pc = []
         self.fresh_n = 0
         self.merge_depth = 0
@@ -625,18 +626,73 @@ class Ctx:
             self.mergeable_cache[f.name] = r
         return r and f.name not in self.no_merge
 
+    def val_key(self, v, keep, seen):
+        """structural identity of a value and everything reachable from it (z3 terms by AST id)"""
+        if v is None:
+            return None
+        t = type(v)
+        if t is bool:
+            return v
+        if t is Int:
+            if isinstance(v.v, int):
+                return ('i', v.bits, v.v)
+            keep.append(v.v)
+            return ('i', v.bits, v.signed, 'z', v.v.get_id())
+        if t is S:
+            if v.lit is not None:
+                return ('s', v.lit)
+            if v.atom is not None:
+                keep.append(v.atom)
+                return ('sa', v.atom.get_id())
+            if v.seq is not None:
+                keep.append(v.seq)
+                return ('sq', v.seq.get_id())
+            keep.append(v)
+            return ('sl', id(v))
+        if t is UnitT:
+            return ()
+        if t is Struct:
+            return ('S', v.name, tuple(self.val_key(c.v, keep, seen) for c in v.fields))
+        if t is Enum:
+            return ('E', v.name, v.variant, tuple(self.val_key(c.v, keep, seen) for c in v.fields))
+        if t is Ref:
+            cid = id(v.cell)
+            if cid in seen:
+                return ('&cyc', seen[cid])
+            seen[cid] = len(seen)
+            return ('&', self.val_key(v.cell.v, keep, seen))
+        if t is VecV or t is SliceV:
+            return ('V', tuple(self.val_key(c.v, keep, seen) for c in v.elems))
+        if t is MapV:
+            return ('M', v.is_set, tuple((self.val_key(k, keep, seen), self.val_key(c.v, keep, seen)) for k, c in v.entries))
+        if t is Opaque:
+            if isinstance(v.data, (S, Int)) or v.data is None:
+                return ('O', v.tag, self.val_key(v.data, keep, seen))
+            keep.append(v)
+            return ('O', v.tag, id(v))
+        if t is FnItem:
+            return ('F', v.path)
+        if t is IterV:
+            return ('I', v.kind, tuple(self.val_key(x, keep, seen) for x in v.items))
+        if z3.is_expr(v):
+            keep.append(v)
+            return ('z', v.get_id())
+        keep.append(v)
+        return ('?', id(v))
+
     def merged_call(self, f, args):
-        """explore all paths of a pure scalar-valued call and return one merged term"""
-        outer = self.dec
-        ckey = tuple(d.key() for d in self.dec_stack) + (outer.key(), f.name)
-        outer.seq += 1
+        """explore all paths of a pure scalar-valued call (context-free) and return one merged term;
+        results are cached by the structural content of the arguments"""
+        keep = []
+        ckey = (f.name, tuple(self.val_key(a, keep, {}) for a in args))
         cached = self.merge_cache.get(ckey)
         if cached is None:
-            cached = self._merged_explore(f, args, outer)
-            if cached is None:
+            res = self._merged_explore(f, args, self.dec)
+            if res is None:
                 return self.exec_fn(f, args)
+            cached = (res, keep)
             self.merge_cache[ckey] = cached
-        panic_conds, value = cached
+        panic_conds, value = cached[0]
         for cond, p in panic_conds:
             if self.branch(cond):
                 raise p
@@ -653,13 +709,25 @@ class Ctx:
         base_pc = len(self.pc)
         saved_events = self.events
         saved_models = self.models_cache
+        saved_solver = self.solver
+        # context-free: a fresh solver level without the caller's path condition
+        while len(self.msolvers) < self.merge_depth:
+            ms = z3.Solver()
+            ms.set('timeout', self.timeout_ms)
+            self.msolvers.append(ms)
+        self.solver = self.msolvers[self.merge_depth - 1]
+        self.solver.reset()
+        self.solver.set('timeout', self.timeout_ms)
+        saved_models = self.models_cache
+        self.models_cache = []
+        base_models = []
         try:
             while True:
                 sub.pos = 0
                 sub.seq = 0
                 self.solver.push()
                 self.events = []
-                self.models_cache = list(saved_models)
+                self.models_cache = []
                 try:
                     try:
                         v = self.exec_fn(f, [clone_val(a) for a in args])
@@ -682,12 +750,14 @@ class Ctx:
             self.merge_depth -= 1
             self.events = saved_events
             self.models_cache = saved_models
+            self.solver = saved_solver
             return None
         self.dec = outer
         self.dec_stack.pop()
         self.merge_depth -= 1
         self.events = saved_events
         self.models_cache = saved_models
+        self.solver = saved_solver
         self.stats.merged_calls += 1
         panic_conds = [(z3.And(*pc) if pc else z3.BoolVal(True), p) for pc, v, p in results if p is not None]
         oks = [(pc, v) for pc, v, p in results if p is None]
